@@ -756,6 +756,14 @@ def op_cont(res, shape, sps, ts, bad):
                       % (shape, case["elems"], case["t"], got, ref), case, got if _isexc(got) else _tolist(got), ref)
     else:
         res.outcomes["cont-ok|" + shape] += 1
+        # the caller's container must come through untouched: converting the very same object a second time gives the
+        # same numbers (an in-place conversion would leave bare magnitudes behind)
+        again = _obs(lambda: cu.to_unitless(val, _real(ts)))
+        res.evaluations += 1
+        if _isexc(again) or not _same_struct(again, ref):
+            res.outcomes["cont-ARGUMENT-MODIFIED"] += 1
+            res.violation("C09|to_unitless|%s|second-conversion-of-the-same-container-differs" % shape, "to_unitless(%s of %r, %s) called twice on the same object: second result %r, exact %r"
+                          % (shape, case["elems"], case["t"], again if _isexc(again) else _tolist(again), ref), dict(case, twice=True), again if _isexc(again) else _tolist(again), ref)
 
 
 def _layer_C(res, k, j, J):
